@@ -1,7 +1,9 @@
 package vsync
 
 import (
+	"cmp"
 	"fmt"
+	"slices"
 	"time"
 	"unsafe"
 )
@@ -218,4 +220,16 @@ func SelfTest() error {
 		return errs[0]
 	}
 	return nil
+}
+
+// MapKeys returns the keys of m in sorted order; vinstr routes selected
+// range-over-map loops through it so that replay does not depend on Go's
+// randomised map iteration order.
+func MapKeys[M ~map[K]V, K cmp.Ordered, V any](m M) []K {
+	ks := make([]K, 0, len(m))
+	for k := range m {
+		ks = append(ks, k)
+	}
+	slices.Sort(ks)
+	return ks
 }
